@@ -18,6 +18,7 @@ import (
 	"time"
 
 	"github.com/ErdemOzgen/blackdagger/verifh/core"
+	"github.com/ErdemOzgen/blackdagger/verifh/pgrp"
 	"gopkg.in/yaml.v2"
 )
 
@@ -94,6 +95,7 @@ func c17ServerBody(c *core.Ctx) {
 			c.End(idx)
 			return
 		}
+		grp := pgrp.Open(cmd.Process.Pid)
 		exited := make(chan struct{})
 		go func() { _ = cmd.Wait(); close(exited) }()
 		// wait until it listens or has exited
@@ -157,11 +159,12 @@ func c17ServerBody(c *core.Ctx) {
 				c.Count("positive_controls", 1)
 			}
 		}
-		_ = syscall.Kill(-cmd.Process.Pid, syscall.SIGKILL)
+		grp.Kill()
 		select {
 		case <-exited:
 		case <-time.After(10 * time.Second):
 		}
+		grp.Close()
 		c.Sig("srv", idx, scheme, damage, listening, authLost)
 		if idx%9 == 0 {
 			c.Sample(desc)
